@@ -13,7 +13,11 @@ use crate::{
     world::{ent_of, gen_ent, gen_key, hexbytes, world, Ent, GenCfg},
 };
 
-pub struct QueryScen;
+/// `large`: documents of several hundred entries, offsets and limits around 255/256/257, 1000 and
+/// the number of entries held.
+pub struct QueryScen {
+    pub large: bool,
+}
 
 #[derive(Serialize, Deserialize, Clone, Debug, PartialEq, Eq)]
 pub enum KeyF {
@@ -100,13 +104,46 @@ fn gen_q(rng: &mut Rng, g: &GenCfg, items: &[Ent]) -> QSpec {
     }
 }
 
+fn gen_large(rng: &mut Rng, tier: Tier) -> QueryPlan {
+    let g = GenCfg { docs: *rng.pick(&[1u8, 1, 2]), authors: rng.range(1, 3) as u8, max_key_len: 2, ts_values: 4, marker_pct: 15, contents: 3 };
+    let n = *rng.pick(&[150usize, 257, 300, tier.pick(520, 1100)]);
+    let mut items: Vec<Ent> = Vec::new();
+    for _ in 0..n {
+        // keys of two bytes over the whole byte range: hardly any pruning, so the documents stay large
+        let k = vec![rng.below(256) as u8, rng.below(256) as u8];
+        items.push(Ent { d: rng.below(g.docs as u64) as u8, a: rng.below(g.authors as u64) as u8, k, ts: rng.range(1, 4), c: if rng.chance(15, 100) { 0 } else { rng.range(1, 3) as u8 } });
+    }
+    let backend = if rng.chance(1, 2) { Backend::Mem } else { Backend::Disk };
+    let mut steps = Vec::new();
+    for i in 0..n {
+        steps.push(QStep::Offer { i, path: Path::Remote });
+        if backend == Backend::Disk && rng.chance(1, 400) {
+            steps.push(QStep::DropDerived { by_key: rng.chance(2, 3), heads: rng.chance(1, 2) });
+        }
+    }
+    let edge = [0u64, 1, 2, 100, 255, 256, 257, 511, 512, 1000, 1023, 1024, 1025, n as u64 - 1, n as u64, n as u64 + 1, n as u64 / 2];
+    for _ in 0..rng.urange(6, 14) {
+        let mut q = gen_q(rng, &g, &items);
+        if rng.chance(2, 3) {
+            q.kf = if rng.chance(1, 2) { KeyF::Any } else { KeyF::Prefix(vec![rng.below(256) as u8]) };
+        }
+        q.offset = if rng.chance(1, 3) { 0 } else { *rng.pick(&edge) };
+        q.limit = if rng.chance(1, 3) { None } else { Some(*rng.pick(&edge)) };
+        steps.push(QStep::Query(q));
+    }
+    QueryPlan { seed: rng.next_u64(), backend, items, steps }
+}
+
 impl Scenario for QueryScen {
     type Plan = QueryPlan;
     fn name(&self) -> String {
-        "query".into()
+        if self.large { "query-large".into() } else { "query".into() }
     }
 
     fn gen(&self, rng: &mut Rng, tier: Tier) -> QueryPlan {
+        if self.large {
+            return gen_large(rng, tier);
+        }
         let g = GenCfg { docs: *rng.pick(&[1u8, 2, 2, 3, 4]), authors: rng.range(1, 4) as u8, max_key_len: 3, ts_values: 5, marker_pct: 25, contents: 3 };
         let n = rng.urange(1, tier.pick(12, 20));
         let items: Vec<Ent> = (0..n).map(|_| gen_ent(rng, &g)).collect();
@@ -183,6 +220,9 @@ impl Scenario for QueryScen {
     }
 
     fn rule(&self) -> String {
+        if self.large {
+            return "A run fills 1-2 documents with 150-1100 entries at two-byte keys over the whole byte range (1-3 authors, 15% deletion markers), optionally rebuilds the derived tables, and asks 6-14 queries whose offsets and limits are drawn from {0, 1, 2, 100, 255, 256, 257, 511, 512, 1000, 1023, 1024, 1025, n-1, n, n+1, n/2}; each is compared with a brute-force evaluation over the model.".into();
+        }
         "A run builds a state of 1-2 adjacent documents through a pruning history (stale index rows), with clean restarts and derived-table drops, and interleaves random queries: kind (flat / latest-per-key) x author filter x key filter (any/exact/prefix incl. ..FF and empty prefixes) x sort key x direction x include-empty x offset x limit, and point lookups; each is compared with a brute-force evaluation over the model. Non-trivial: a restart or index rebuild happened, or the state contains pruned/superseded entries.".into()
     }
 }
